@@ -4,9 +4,11 @@ import (
 	"encoding/binary"
 	"fmt"
 	"runtime"
+	"strings"
 	"sync"
 	"sync/atomic"
 	"syscall"
+	"time"
 	"unsafe"
 )
 
@@ -37,11 +39,12 @@ const (
 	KLockWait
 	KNote // logged, does not park
 	KDone
-	KEnv   // pseudo: environment event (never sent by a task)
-	KYield // forced pre-emption between two statements (instrumented build only)
+	KEnv     // pseudo: environment event (never sent by a task)
+	KYield   // forced pre-emption between two statements (instrumented build only)
+	KBlocked // pseudo: the running task's goroutine sits in a Go synchronisation primitive (never sent by a task)
 )
 
-var kindNames = [...]string{"start", "op-begin", "op-end", "get", "read", "write", "callback", "lock", "lockwait", "note", "done", "env", "yield"}
+var kindNames = [...]string{"start", "op-begin", "op-end", "get", "read", "write", "callback", "lock", "lockwait", "note", "done", "env", "yield", "blocked"}
 
 func (k Kind) String() string { return kindNames[k] }
 
@@ -71,6 +74,9 @@ type Env interface {
 }
 
 const maxTasks = 8
+
+// a phase that takes longer than this in real time is abandoned like one that exceeds the step budget
+const maxRunWall = 20 * time.Second
 
 var (
 	slotGid [maxTasks]atomic.Uint64
@@ -125,6 +131,9 @@ type Sched struct {
 	LockBlocks int    // failed TryLock parks
 	Deadlock   bool
 	Overrun    bool
+	Blocks     int      // times a task was found blocked in an unannounced synchronisation primitive
+	leaked     bool     // tasks blocked for good could not be joined
+	began      time.Time
 	Log        []string // optional full event log
 	KeepLog    bool
 }
@@ -134,6 +143,10 @@ type taskState struct {
 	pending *Msg
 	done    bool
 	waitEp  uint64
+	// blocked: the task's goroutine waits in a channel operation, sync.Cond, WaitGroup,
+	// or a lock nobody announced - something only another task's progress can end. The
+	// scheduler treats it as parked at an unknown site; it comes back by itself.
+	blocked bool
 }
 
 func curGoid() uint64 {
@@ -283,6 +296,139 @@ func (s *Sched) recv() *Msg {
 	return m
 }
 
+// pollReadable waits up to ms milliseconds for data on fd (raw syscall: invisible to the
+// race runtime like the rest of the transport).
+func pollReadable(fd int, ms int) bool {
+	var pfd struct {
+		fd      int32
+		events  int16
+		revents int16
+	}
+	pfd.fd, pfd.events = int32(fd), 1 // POLLIN
+	for {
+		n, _, e := syscall.Syscall(syscall.SYS_POLL, uintptr(unsafe.Pointer(&pfd)), 1, uintptr(ms))
+		if e == syscall.EINTR {
+			continue
+		}
+		return e == 0 && n > 0
+	}
+}
+
+var blockedStates = []string{"chan receive", "chan send", "select", "semacquire", "sync.Mutex.Lock", "sync.RWMutex.Lock",
+	"sync.RWMutex.RLock", "sync.WaitGroup.Wait", "sync.Cond.Wait", "chan receive (nil chan)", "chan send (nil chan)", "select (no cases)"}
+
+// goroutineBlocked reports whether goroutine gid currently waits in a Go
+// synchronisation primitive (taken from the runtime's own goroutine dump). A goroutine
+// that a close / send / Unlock / Signal of another goroutine has made runnable again is
+// reported as not blocked: the runtime readies the waiter before that call returns.
+func goroutineBlocked(gid uint64) bool {
+	buf := make([]byte, 1<<18)
+	var n int
+	for {
+		n = runtime.Stack(buf, true)
+		if n < len(buf) || len(buf) >= 1<<24 {
+			break
+		}
+		buf = make([]byte, 2*len(buf))
+	}
+	dump := string(buf[:n])
+	marker := fmt.Sprintf("goroutine %d [", gid)
+	i := strings.Index(dump, marker)
+	if i < 0 {
+		return false
+	}
+	rest := dump[i+len(marker):]
+	j := strings.IndexByte(rest, ']')
+	if j < 0 {
+		return false
+	}
+	state := rest[:j]
+	if k := strings.IndexByte(state, ','); k >= 0 {
+		state = state[:k]
+	}
+	for _, b := range blockedStates {
+		if state == b {
+			return true
+		}
+	}
+	return false
+}
+
+// waitMsg returns the next message on the shared pipe. When none arrives although task c
+// was let run, its goroutine is inspected: if it sits in a synchronisation primitive (seen
+// twice in a row), a KBlocked pseudo message is synthesised for it.
+func (s *Sched) waitMsg(c int) *Msg {
+	wait, seen := 2, 0
+	for {
+		if pollReadable(s.up[0], wait) {
+			return s.recv()
+		}
+		if goroutineBlocked(slotGid[c].Load()) {
+			seen++
+			if seen >= 2 {
+				return &Msg{Task: c, Kind: KBlocked}
+			}
+			continue
+		}
+		seen = 0
+		if wait < 64 {
+			wait *= 2
+		}
+	}
+}
+
+// absorb books a message from a task that had been found blocked in a synchronisation
+// primitive: something the running task did has released it, and it has reached its next
+// seam (or its end) by itself.
+func (s *Sched) absorb(nm *Msg) {
+	ot := s.tasks[nm.Task]
+	if !ot.blocked {
+		panic(fmt.Sprintf("sim: message from task %d, which is neither running nor blocked", nm.Task))
+	}
+	switch nm.Kind {
+	case KNote:
+		nseq := s.NextSeq()
+		s.logf("%d t%d note a=%d b=%d s=%q (released)", nseq, nm.Task, nm.A, nm.B, nm.S)
+		s.env.Note(nseq, nm)
+	case KDone:
+		ot.done, ot.blocked = true, false
+		s.epoch++
+		s.logf("t%d done (released)", nm.Task)
+	default:
+		ot.pending, ot.blocked = nm, false
+		if nm.Kind == KLockWait {
+			ot.waitEp = s.epoch
+		}
+		s.epoch++
+		s.logf("t%d released, parked at %s", nm.Task, nm.Kind)
+	}
+}
+
+// settle brings every task that was found blocked back to a defined state before the
+// next scheduling decision: either its goroutine still sits in a synchronisation
+// primitive (only another task's progress can end that), or it was released by the step
+// just taken - then it runs by itself up to its next seam, and its message is awaited
+// here. Afterwards every task is parked at a seam, done, or blocked; no task runs.
+func (s *Sched) settle() {
+	if s.Blocks == 0 {
+		return
+	}
+	for {
+		open := false
+		for i, t := range s.tasks {
+			if t.blocked && !t.done && !goroutineBlocked(slotGid[i].Load()) {
+				open = true
+			}
+		}
+		if !open {
+			return
+		}
+		if pollReadable(s.up[0], 1) {
+			s.absorb(s.recv())
+		}
+	}
+}
+
 func NewSched(tape *Tape, env Env) *Sched {
 	s := &Sched{tape: tape, env: env, MaxSteps: 4000, Trace: newHasher()}
 	if Instrumented {
@@ -369,8 +515,18 @@ func (s *Sched) RunPhase(bodies []func(tc *TaskCtx), locals []any, nEnv int) []*
 		s.yieldsLeft[i] = s.YieldBudget
 	}
 	s.initStrategy(n)
+	s.began = time.Now()
 	s.loop()
 	running.Store(nil)
+	stuck := false
+	for _, t := range s.tasks {
+		if t.blocked && !t.done {
+			stuck = true // blocked in a synchronisation primitive and nobody is left to release it
+		}
+	}
+	if stuck {
+		s.Deadlock = true
+	}
 	if s.Deadlock || s.Overrun {
 		tearingDown.Store(true)
 		// tasks are stuck parked: closing the write ends of their wake pipes makes the
@@ -380,9 +536,27 @@ func (s *Sched) RunPhase(bodies []func(tc *TaskCtx), locals []any, nEnv int) []*
 			tc.down[1] = -1
 		}
 	}
-	wg.Wait()
+	if !stuck {
+		wg.Wait()
+	} else {
+		// the unwinding tasks run the engine's deferred unlocks, which may or may not
+		// release the blocked ones; goroutines that stay blocked are abandoned
+		joined := make(chan struct{})
+		go func() { wg.Wait(); close(joined) }()
+		select {
+		case <-joined:
+			stuck = false
+		case <-time.After(300 * time.Millisecond):
+		}
+	}
 	tearingDown.Store(false)
 	activeTasks.Store(0)
+	if stuck {
+		// (the pipes stay open on purpose: an abandoned goroutine that is released after all
+		// must not write into descriptors that a later run has been given)
+		s.leaked = true
+		return tcs
+	}
 	syscall.Close(s.up[0])
 	syscall.Close(s.up[1])
 	for _, tc := range tcs {
@@ -430,7 +604,7 @@ func (s *Sched) eligible() []int {
 	// current first, then ascending ids, env last
 	add := func(i int) {
 		t := s.tasks[i]
-		if t.done || t.pending == nil {
+		if t.done || t.blocked || t.pending == nil {
 			return
 		}
 		if t.pending.Kind == KLockWait && t.waitEp >= s.epoch {
@@ -510,7 +684,9 @@ func (s *Sched) loop() {
 			s.logf("DEADLOCK")
 			return
 		}
-		if s.Steps >= s.MaxSteps {
+		if s.Steps >= s.MaxSteps || (s.Steps%32 == 31 && time.Since(s.began) > maxRunWall) {
+			// (the wall-clock bound only decides when a run that is going nowhere is given
+			// up as a harness error; it never enters a verdict)
 			s.Overrun = true
 			return
 		}
@@ -555,9 +731,10 @@ func (s *Sched) loop() {
 		rawWrite(t.tc.down[1], rb[:])
 		// wait for the task's next parking message
 		for {
-			nm := s.recv()
+			nm := s.waitMsg(c)
 			if nm.Task != c {
-				panic(fmt.Sprintf("sim: message from task %d while task %d runs", nm.Task, c))
+				s.absorb(nm)
+				continue
 			}
 			if nm.Kind == KNote {
 				nseq := s.NextSeq()
@@ -566,6 +743,15 @@ func (s *Sched) loop() {
 				continue
 			}
 			running.Store(nil)
+			if nm.Kind == KBlocked {
+				// from now on two tasks may briefly run side by side (a released task runs
+				// until its next seam): identify tasks by goroutine id
+				t.blocked = true
+				s.Blocks++
+				tearingDown.Store(true)
+				s.logf("t%d blocked in a synchronisation primitive", c)
+				break
+			}
 			if nm.Kind == KDone {
 				t.done = true
 				s.epoch++
@@ -581,5 +767,6 @@ func (s *Sched) loop() {
 			}
 			break
 		}
+		s.settle()
 	}
 }
